@@ -169,6 +169,44 @@ def job(j: dict) -> dict:
             "siblings_same": got == baseline if got is not None else True, "name": name, "size": len(data)}
 
 
+def job_slow(j: dict) -> dict:
+    """A healthy seed file with a token flood appended after its last line: parsing takes seconds, and every finding
+    of the healthy part must still be reported (same run: a healthy copy linted right after it keeps its own)."""
+    drive.preload()
+    from src.api import Linter
+    ext, text = SEED[j["seed"]]
+    root = Path(j["root"])
+    root.mkdir(parents=True)
+    (root / ".thailint.yaml").write_text(projects.BASE_CONFIG)
+    (root / ".git").mkdir()
+    flood = {"quote": '"', "backtick": "`", "paren": "("}[j["token"]] * j["n"]
+    tail = {"ts": f"const flooded = {flood};\n", "js": f"const flooded = {flood};\n"}[ext]
+    (root / f"a_slow.{ext}").write_text(text + tail)
+    (root / f"b_healthy.{ext}").write_text(text)
+    os.chdir(root)
+    nseed = text.count("\n")
+    out = {}
+    import time
+    t0 = time.time()
+    vs = Linter(project_root=str(root)).lint(str(root))
+    out["seconds"] = round(time.time() - t0, 1)
+    for name in (f"a_slow.{ext}", f"b_healthy.{ext}"):
+        out[name] = sorted(canon([v.rule_id, v.line, v.message]) for v in vs
+                           if drive.rel(str(v.file_path), root) == name and v.line <= nseed
+                           and not v.rule_id.startswith(("file-header", "file-placement", "dry.", "stringly")))
+    ref_root = root / "ref"
+    ref_root.mkdir()
+    (ref_root / ".thailint.yaml").write_text(projects.BASE_CONFIG)
+    (ref_root / f"b_healthy.{ext}").write_text(text)
+    os.chdir(ref_root)
+    import src.linter_config.ignore as ig
+    ig._CACHED_PARSER = None
+    ref = Linter(project_root=str(ref_root)).lint(str(ref_root))
+    out["ref"] = sorted(canon([v.rule_id, v.line, v.message]) for v in ref
+                        if not v.rule_id.startswith(("file-header", "file-placement", "dry.", "stringly")))
+    return out
+
+
 def run(chk) -> None:
     quick = chk.tier == "quick"
     chk.level = "fault_enumeration"
@@ -199,7 +237,33 @@ def run(chk) -> None:
                      "big": 300 if quick else (300 if i % 5 else 3000),
                      "cmds": [CMDS[(i + k * 7) % len(CMDS)] for k in range(3)],
                      "root": str(scratch_root() / f"c11-{i}")})
+    # token floods long enough that one tree-sitter parse of the file takes a second or more: slow inputs must still
+    # be analysed (findings of the healthy part kept), and the healthy file linted after them keeps its findings
+    sjobs = [{"seed": lang, "token": tok, "n": n, "root": str(scratch_root() / f"c11-slow-{lang}-{tok}")}
+             for lang in ("typescript", "javascript")
+             for tok, n in ((("quote", 10000),) if quick else (("quote", 10000), ("backtick", 10000), ("quote", 16000)))]
     log(f"C11: {len(jobs)} damaged files")
+    sres = pool.run_jobs(job_slow, sjobs, nproc=NCPU, timeout=600)
+    for sj, r_ in zip(sjobs, sres):
+        case = {"seed": sj["seed"], "faults": [f"append-{sj['token']}-flood-{sj['n']}"]}
+        chk.count(case, nontrivial=True)
+        if not r_.ok:
+            if r_.hang:
+                chk.reject({"clause": "Hang", "lang": sj["seed"], "faults": case["faults"]}, sj,
+                           f"no result within 600 s for {case}")
+                continue
+            raise MachineryError(f"C11 slow job failed: {r_.error}")
+        v = r_.value
+        ext = SEED[sj["seed"]][0]
+        if not v["ref"]:
+            raise MachineryError("C11 slow job: the healthy seed has no findings (vacuous)")
+        for name in (f"a_slow.{ext}", f"b_healthy.{ext}"):
+            lost = [x for x in v["ref"] if x not in v[name]]
+            if lost:
+                chk.reject({"clause": "AnalysisDropped", "lang": sj["seed"], "file": name.split(".")[0],
+                            "rule": json.loads(lost[0])[0]}, dict(sj, lost=lost[:5], seconds=v["seconds"]),
+                           f"{sj['seed']}: {name} lost {len(lost)} finding(s) of its healthy part, e.g. {lost[0]} "
+                           f"(flood of {sj['n']} {sj['token']} characters appended; run took {v['seconds']} s)")
     res = pool.run_jobs(job, jobs, nproc=NCPU, timeout=120)
     records, meta = [], []
     for j, r_ in zip(jobs, res):
